@@ -4,6 +4,7 @@ Exit codes: 0 property held on everything explored; 1 VIOLATION (line printed);
 2 UNDECIDED (solver unknown, no violation claimed); 3 tool failure.
 """
 import argparse
+import ast
 import glob
 import json
 import multiprocessing as mp
@@ -28,25 +29,66 @@ def _unit_worker(args):
     return R.verify_unit(unit, timeout_ms)
 
 
+def _asts_of(d):
+    """every AST fragment of a contract / lemma / spec definition"""
+    out = []
+    for attr in ("requires", "ensures", "defs", "entry", "exit", "body"):
+        out.extend(getattr(d, attr, []) or [])
+    for attr in ("raises", "decreases"):
+        v = getattr(d, attr, None)
+        if v is not None:
+            out.append(v)
+    for ls in (getattr(d, "loops", {}) or {}).values():
+        out.extend(ls.invariants)
+        out.extend(ls.head + ls.tail + ls.after)
+        if ls.decreases is not None:
+            out.append(ls.decreases)
+    for blocks in list((getattr(d, "call_anchors", {}) or {}).values()) + list((getattr(d, "stmt_anchors", {}) or {}).values()):
+        out.extend(blocks)
+    return [x for x in out if isinstance(x, ast.AST)]
+
+
+def _names_called(d):
+    res = set()
+    for t in _asts_of(d):
+        for n in ast.walk(t):
+            if isinstance(n, ast.Call) and isinstance(n.func, ast.Name):
+                res.add(n.func.id)
+    return res
+
+
 def units_for(db, prop):
+    """contracts tagged with the property, plus the lemmas and specs they (transitively) use -- a lemma that no
+    contract or lemma of this property refers to is not re-proved here"""
     units = []
+    roots = []
     for q, cd in sorted(db.contracts.items()):
         if prop in cd.options.get("props", []) and not cd.options.get("trusted") and not cd.options.get("inline"):
             for v in R.variants_of(cd):
                 units.append(("contract", q, v))
+        if prop in cd.options.get("props", []):
+            roots.append(cd)
     if not units:
         return []  # no function of this property is under a U contract: nothing to discharge
-    files = set()
-    for q, cd in db.contracts.items():
-        if prop in cd.options.get("props", []):
-            files.add(cd.file)
-    # lemmas / specs: those tagged with the property, plus everything defined in files that
-    # hold a contract of this property (shared vocabulary is re-proved for every property using it)
-    for n, ld in sorted(db.lemmas.items()):
-        if prop in ld.options.get("props", []) or ld.file in files or ld.options.get("shared"):
-            units.append(("lemma", n, {}))
-    for n, sd in sorted(db.specs.items()):
-        if not getattr(sd, "abstract", False):
+    for n, ld in db.lemmas.items():
+        if prop in ld.options.get("props", []):
+            roots.append(ld)
+    # callee contracts are assumed at call sites: their ensures / requires pull in specs (not lemmas)
+    seen_l, seen_s = set(), set()
+    todo = list(roots)
+    while todo:
+        d = todo.pop()
+        for nm in _names_called(d):
+            if nm in db.lemmas and nm not in seen_l:
+                seen_l.add(nm)
+                todo.append(db.lemmas[nm])
+            if nm in db.specs and nm not in seen_s:
+                seen_s.add(nm)
+                todo.append(db.specs[nm])
+    for n in sorted(seen_l | {n for n, ld in db.lemmas.items() if prop in ld.options.get("props", [])}):
+        units.append(("lemma", n, {}))
+    for n in sorted(seen_s):
+        if not getattr(db.specs[n], "abstract", False):
             units.append(("spec", n, {}))
     return units
 
@@ -163,7 +205,7 @@ def main(argv=None):
     units = [] if a.only_rt else units_for(db, prop)
     results = []
     if units:
-        with mp.Pool(min(16, max(1, len(units)))) as pool:
+        with mp.Pool(min(16, max(1, len(units))), maxtasksperchild=1) as pool:
             results = pool.map(_unit_worker, [(u, timeout_ms) for u in units], chunksize=1)
     crashed = [r for r in results if r["error"]]
     rt = None if a.no_rt else run_rt(prop, tier, seed)
